@@ -589,6 +589,92 @@ def _run_enum(jobs):
     return real, model
 
 
+# ---- wrapper chains deeper than the closed family (oracle only): "its unwrapped form" means unwrapped all the way
+DEEP_SRC = """
+import dataclasses, typing
+@dataclasses.dataclass
+class K:
+    x: int = 0
+A = typing.TypeAliasType("A", K)
+S = typing.TypeAliasType("S", "K")
+N = typing.NewType("N", K)
+NA = typing.NewType("NA", A)
+NS = typing.NewType("NS", S)
+NN = typing.NewType("NN", N)
+NNA = typing.NewType("NNA", NA)
+AN = typing.TypeAliasType("AN", N)
+AA = typing.TypeAliasType("AA", A)
+ANA = typing.TypeAliasType("ANA", NA)
+IA = typing.TypeAliasType("IA", int)
+NIA = typing.NewType("NIA", IA)
+"""
+# (wrapper expression, base expression, intermediate wrappers that a caller may look up in between)
+DEEP_CHAINS = [("NA", "K", ["A"]), ("NN", "K", ["N"]), ("NNA", "K", ["NA", "A"]), ("AN", "K", ["N"]), ("AA", "K", ["A"]),
+               ("ANA", "K", ["NA", "A"]), ("typing.Final[NA]", "K", ["NA", "A"]), ("typing.Final[AN]", "K", ["AN", "N"]),
+               ("typing.ClassVar[NA]", "K", ["NA"]), ("NIA", "int", ["IA"]), ("typing.Final[NIA]", "int", ["NIA", "IA"])]
+
+
+def _deep_child(_job):
+    import warnings
+    warnings.simplefilter("ignore")
+    from typelib import ctx as tctx
+    mod = types.ModuleType("c16_deep")
+    sys.modules["c16_deep"] = mod
+    ns = mod.__dict__
+    exec(compile(DEEP_SRC, "c16_deep.py", "exec"), ns)
+    bad = []
+    v, d = object(), object()
+
+    def look(c, k):
+        try:
+            return c[k]
+        except KeyError:
+            return KeyError
+    for w, b, mids in DEEP_CHAINS:
+        W, B = eval(w, ns), eval(b, ns)
+        c = tctx.TypeContext()
+        c[B] = v
+        if look(c, W) is not v:
+            bad.append([w, f"ctx[{b}] = v; ctx[{w}] is {'KeyError' if look(c, W) is KeyError else 'another value'}, not v (the value stored under its unwrapped form)"])
+        c = tctx.TypeContext()
+        c[B] = v
+        g1 = c.get(W, d)
+        for m in mids:
+            c.get(eval(m, ns), d)
+            look(c, eval(m, ns))
+        g2 = c.get(W, d)
+        if g1 is not v or g2 is not v:
+            bad.append([w, f"ctx[{b}] = v; get({w}, d) is {'v' if g1 is v else 'd'} before and {'v' if g2 is v else 'd'} after looking up {mids}: must be v both times"])
+        c = tctx.TypeContext()
+        if look(c, W) is not KeyError or c.get(W, d) is not d:
+            bad.append([w, f"absent key {w}: subscription must raise KeyError and get must give the default"])
+        for m in mids:
+            look(c, eval(m, ns))
+        if look(c, W) is not KeyError or c.get(W, d) is not d:
+            bad.append([w, f"absent key {w} after looking up {mids} (all absent): must still be absent"])
+    # a string-valued alias unwraps to the reference in its value: a NewType over it finds what is stored under that reference
+    r = object()
+    c = tctx.TypeContext()
+    c[typing.ForwardRef("K", module="c16_deep", is_class=True)] = r
+    for w in ("S", "NS"):
+        if look(c, eval(w, ns)) is not r:
+            bad.append([w, f"ctx[ForwardRef('K', module)] = r; ctx[{w}] is not r"])
+    return bad
+
+
+def deep_wrappers(res):
+    from .. import iso
+    bad = iso.map_isolated(_deep_child, [None], timeout=60.0)[0]
+    if not isinstance(bad, list):
+        raise RuntimeError(f"harness: deep-wrapper probe failed: {bad}")
+    for w, _, _ in DEEP_CHAINS:
+        res.case({"deep_wrapper": w}, True)
+    for w, what in bad:
+        res.failures.append({"what": what, "input": {"deep_wrapper": w}})
+    if not bad:
+        res.count("oracle:deep-wrapper-chains-unwrap-all-the-way", len(DEEP_CHAINS))
+
+
 def explore(ctx):
     res = Result()
     res.rule = RULE
@@ -609,6 +695,7 @@ def explore(ctx):
         else:
             res.count("oracle:forwardref-names-the-type")
     check_key_laws(res)
+    deep_wrappers(res)
 
     # 0'. the two witnesses showing why the property restricts itself (theorems write_once_needed, contains_observes_memo):
     #     outside the property, so recorded only — never an alarm (a TypeContext that did not memoise would not show them)
@@ -723,6 +810,11 @@ def witness(fid):
 
 
 def replay(failure):
+    if "deep_wrapper" in failure["input"]:
+        from .. import iso
+        bad = iso.map_isolated(_deep_child, [None], timeout=60.0)[0]
+        print(json.dumps({"wrapper chains on which TypeContext does not find the value stored under the fully unwrapped type": bad}, indent=1))
+        return bool(bad)
     if "naming" in failure["input"]:
         F = family()
         bad = [(list(jk), shown) for jk, shown, ok in F.naming if not ok]
